@@ -1,0 +1,29 @@
+//go:build verif
+
+package container
+
+// Machine-checked contracts (govc, see /verif/DESIGN.md). Comment-only file.
+
+// ---- C34: every contract call of a co-signed main transaction must be an expected call
+// (contract and method). The preparator checks the FIRST call against the registered
+// (contract, method) pairs; a parser that accepts a second call must therefore check that
+// call's identity itself: same contract as the first call, and the eACL method.
+// callIdentityOf / callTypeOf name the answers of the NotaryEvent getters.
+
+//@ ghost pred callContract(ev any) util.Uint160
+//@ ghost pred callMethod(ev any) string
+//@ callrule second_call_contract_fact in RestoreCreateContainerV2Request
+//@   property C34
+//@   callee (event.NotaryEvent).ScriptHash
+//@   pureeffect
+//@   defines result == callContract(self)
+//@ callrule second_call_method_fact in RestoreCreateContainerV2Request
+//@   property C34
+//@   callee (event.NotaryEvent).Type
+//@   pureeffect
+//@   defines result == callMethod(self)
+//@ callrule second_call_must_be_the_expected_eacl_call in RestoreCreateContainerV2Request
+//@   property C34
+//@   callee container.RestorePutContainerEACLRequest
+//@   requires [same_contract_as_first_call] callContract(a0) == callContract(cnrCall)
+//@   requires [eacl_method] callMethod(a0) == fschaincontracts.PutContainerEACLMethod
